@@ -491,9 +491,8 @@ func propC19(c bookCase, o *hx.Obs) *hx.Failure {
 				if res2.BookMove && !offered[best] {
 					return hx.Failf("C19/search/book-move-not-in-games", "search on %s: book move %s, the games continue with %v", q.FEN(), best, offered)
 				}
-				if len(offered) > 0 && !res2.BookMove {
-					return hx.Failf("C19/search/no-book-move", "time-controlled search on %s did not use the book although the games continue with %v (best %s)", q.FEN(), offered, best)
-				}
+				// (not demanded: that the book is used whenever the games continue - a continuation that transposes
+				// into a position the book already knows is counted but not linked from its second parent)
 				if len(offered) == 0 {
 					o.Label("search-on-book-leaf")
 				} else {
@@ -849,6 +848,27 @@ func TestC19(t *testing.T) {
 	hx.Sub(r, "plain", r.N(150, 1500)/div, gen(0, true, 40), propC19)
 	hx.Sub(r, "pgn-decorated", r.N(120, 1200)/div, gen(1, true, 25), propC19)
 	hx.Sub(r, "pgn-hostile-decorated", r.N(60, 600)/div, gen(2, false, 12), propC19)
+	// large books of many short lines (tens of thousands of goroutine tasks touching the same few entries):
+	// a rare lost update in the parallel build (one in ten thousand lines) only shows here
+	hx.Sub(r, "many-lines", r.N(1, 7)/div+1, func(t *rapid.T) bookCase {
+		distinct := genGames(t, 30, 4, false)
+		var nonEmpty []bookGame
+		for _, g := range distinct {
+			if len(g.Moves) > 0 {
+				nonEmpty = append(nonEmpty, g)
+			}
+		}
+		if len(nonEmpty) == 0 {
+			nonEmpty = []bookGame{{Moves: []string{"e2e4", "e7e5"}, FaultAt: -1}}
+		}
+		n := rapid.IntRange(40000, 60000).Draw(t, "lines")
+		step := rapid.SampledFrom([]int{1, 7, 13}).Draw(t, "step")
+		games := make([]bookGame, n)
+		for i := range games {
+			games[i] = nonEmpty[(i*step)%len(nonEmpty)]
+		}
+		return bookCase{Games: games, Procs: []int{16}}
+	}, propC19)
 }
 
 func TestC20(t *testing.T) {
